@@ -50,6 +50,22 @@ def gen_fit_case(rng):
         c03.apply_boundaries(rng, case)          # radii 0, 1, len-1, len, len+1, beyond int16/int32; offsets >= window
         case["kw"]["n_iter"] = rng.choice([0, 1, 1, 2, 2, 3])
         case["kw"]["epsilon"] = rng.choice(EPS)
+        if rng.random() < 0.35:
+            # several windows with NON-uniform mix weights and at least one EM iteration: the E-step must weigh a
+            # window's cells by mix weight x kernel x current value (for every driver)
+            kw = case["kw"]
+            nwin = rng.choice([2, 2, 3])
+            kf = kw["kernel_functions"][0] if isinstance(kw["kernel_functions"], list) else kw["kernel_functions"]
+            kw["window_radii"] = [rng.choice([1, 2, 2, 3]) for _ in range(nwin)]
+            kw["window_orientations"] = [rng.choice(["before", "after", "directional"]) for _ in range(nwin)]
+            kw["kernel_functions"] = [kf] * nwin
+            kw["window_functions"] = ["fixed"] * nwin
+            kw.pop("kernel_args", None)
+            w = [rng.choice([0.5, 1.0, 2.0, 3.0, 0.25]) for _ in range(nwin)]
+            if len(set(w)) == 1:
+                w[0] = w[0] * 4
+            kw["mix_weights"] = w
+            kw["n_iter"] = rng.choice([1, 1, 2])
     # 40%: the same estimator object was fitted on another corpus before; 25%: a later transform goes through the
     # same normalise / threshold / iterate pipeline
     return c03.add_call_history(rng, case, 0.4, 0.25)
